@@ -461,6 +461,17 @@ pub const BROKEN_STARTS: &[&[u8]] = &[b"[}", b"{]", b"[x]", b"[1,]", b"{\"a\"}",
 /// where no diagnostic is printed (the panic policy).
 pub const BROKEN_WORDS: &[&[u8]] = &[b"tru", b"nul", b"fals", b"-", b"t", b"2e"];
 
+/// What other tools put in front of a text file: byte-order marks (whole and cut), a
+/// shebang, a form feed. Garbage for jawk like any other byte that cannot start a value.
+pub const HEADER_JUNK: &[&[u8]] = &[b"\xef\xbb\xbf", b"\xef\xbb\xbf", b"\xff\xfe", b"\xfe\xff", b"\xef\xbb", b"#!", b"\x0c", b"\x00"];
+
+/// One header token and one whitespace byte: a garbage region for the very start of an input.
+pub fn gen_header_junk(rng: &mut Rng) -> Vec<u8> {
+    let mut g = rng.pick(HEADER_JUNK).to_vec();
+    g.push(*rng.pick(&[b'\n', b' ', b'\n', b'\r']));
+    g
+}
+
 pub fn gen_garbage_region(rng: &mut Rng) -> Vec<u8> {
     let mut g = Vec::new();
     g.push(*rng.pick(&[b' ', b'\n', b'\n', b'\t']));
@@ -957,6 +968,9 @@ pub fn gen_stream(rng: &mut Rng, w: &StreamWish) -> Vec<Piece> {
         let b = &mut pieces[0].bytes.0;
         while b.first().map_or(false, |c| matches!(c, b' ' | b'\t' | b'\n' | b'\r')) {
             b.remove(0);
+        }
+        if rng.chance(1, 2) {
+            *b = gen_header_junk(rng);
         }
     }
     for i in 0..n {
